@@ -216,6 +216,16 @@ its lock; whatever it had queued is gone; if it was in the middle of writing a r
 tail behind its last complete record.  By C03 (`crash_atomic`, `crash_stale_reopen`) readers do not see that tail and
 the next session that opens the file for appending cuts it off before it writes. -/
 
+/-- `opensFirst o prog`: running `prog` from a state in which the session's file is open iff `o`, every
+`writeBegin`/`writeEnd` happens while the file is open. -/
+def opensFirst : Bool → List Act → Bool
+  | _, [] => true
+  | _, .openFile :: t => opensFirst true t
+  | _, .closeFile :: t => opensFirst false t
+  | o, .writeBegin :: t => o && opensFirst o t
+  | o, .writeEnd :: t => o && opensFirst o t
+  | o, _ :: t => opensFirst o t
+
 structure KSys where
   s : Sys
   deadTail : Bool            -- a killed writer left a torn record behind the last complete record
@@ -223,6 +233,8 @@ structure KSys where
 inductive Ev
   | run (i : Nat)            -- session i takes its next step if it is enabled
   | kill (i : Nat)           -- the process running session i dies
+  | tear (i : Nat)           -- a write of session i failed in the middle of a record (I/O error, full device): the
+                             -- record is abandoned, a torn tail stays behind; the session goes on with its cleanup
 deriving Repr
 
 def midWrite (x : Sess) : Bool :=
@@ -239,6 +251,12 @@ def opensForAppend (s : Sys) (i : Nat) : Bool :=
   decide (i < s.n) && enabled s i && (s.sess i).writer &&
     (match (s.sess i).prog with | .openFile :: _ => true | _ => false)
 
+/-- may a failed write of session `i` leave a torn tail now?  It is a writer inside its critical section that will
+not write again before it (or somebody else) has opened the library anew — e.g. the flush at session exit raised and
+what is left of the program is `closeFile`, `release`. -/
+def canTear (s : Sys) (i : Nat) : Bool :=
+  decide (i < s.n) && (s.sess i).inCS && (s.sess i).writer && opensFirst false (s.sess i).prog
+
 def ktick (k : KSys) : Ev → KSys
   | .run i => { s := tick k.s i, deadTail := if opensForAppend k.s i then false else k.deadTail }
   | .kill i =>
@@ -247,6 +265,7 @@ def ktick (k : KSys) : Ev → KSys
       { s := setSess { k.s with file := k.s.file, torn := if midWrite x then false else k.s.torn } i (killSess x),
         deadTail := k.deadTail || midWrite x }
     else k
+  | .tear i => if canTear k.s i then { k with deadTail := true } else k
 
 def runEvents (k : KSys) (evs : List Ev) : KSys := evs.foldl ktick k
 
